@@ -58,8 +58,10 @@ MeetsRefRef(w, r, ew, er, fuel) ==
 Cause(e, rd, v, ew, er) ==
   IF ReadableSome(e.W, rd.R, v, ew, er)
   THEN \* the rules give a value; the reader refused it
+       \* ... because of a named deviation: in one and the same reading the rules give a value and the deviation an error
        LET hits == {i \in 1..Len(FailDevs) : FailDevs[i][2] \in KnownIds
-                                            /\ IsErr(Res(e.W, rd.R, v, ew, er, {FailDevs[i][1]}, StdPolicy))} IN
+                      /\ \E p \in {StdPolicy, FitPolicy} : /\ ~IsErr(Res(e.W, rd.R, v, ew, er, {}, p))
+                                                          /\ IsErr(Res(e.W, rd.R, v, ew, er, {FailDevs[i][1]}, p))} IN
        IF hits # {} THEN FailDevs[CHOOSE i \in hits : TRUE][2]
        ELSE IF F_UnionDef \in KnownIds /\ ~ReadableAll(e.W, rd.R, v, ew, er) THEN F_UnionDef
        ELSE ""
